@@ -13,7 +13,7 @@ from . import build_impl, coqrun
 from .term import jsonable
 
 VERIF = coqrun.VERIF
-EVID = os.path.join(VERIF, "evidence")
+EVID = os.environ.get("VERIF_EVIDENCE_DIR") or os.path.join(VERIF, "evidence")
 REPLAYS = os.path.join(EVID, "replays")
 KNOWN = os.path.join(VERIF, "known_findings.json")
 
@@ -23,6 +23,18 @@ KERNEL_TB = [
     "no extraction: the model is evaluated inside Coq, so there is no Extract Constant / Extract Inductive directive",
     "tools/vlib (case writer term.py, coqrun.py reader of (index, code) lists, build_impl.py scratch build of ctraits.c with gcc)",
 ]
+
+
+def load_known(prop):
+    """known_findings.json (+ known_findings.d/*.json while properties are being built)."""
+    out = []
+    files = [KNOWN] if os.path.exists(KNOWN) else []
+    d = os.path.join(VERIF, "known_findings.d")
+    if os.path.isdir(d):
+        files += sorted(os.path.join(d, f) for f in os.listdir(d) if f.endswith(".json"))
+    for f in files:
+        out += [e for e in json.load(open(f)) if e.get("property") == prop]
+    return out
 
 
 class Ctx:
@@ -35,8 +47,7 @@ class Ctx:
         self.scratch = tempfile.mkdtemp(prefix="verif_%s_" % prop, dir=os.environ.get("VERIF_SCRATCH", "/var/tmp"))
         self.impl = None
         self.asan = None
-        self.known = [e for e in json.load(open(KNOWN)) if e.get("property") == prop] \
-            if os.path.exists(KNOWN) else []
+        self.known = load_known(prop)
         self.violations = []     # (key, replay_path, no_input)
         self.known_seen = {}     # key -> what
         self.cov = dict(evaluations=0, distinct_nontrivial=0, rule="", samples=[],
